@@ -83,11 +83,28 @@ pub struct NativeCtx {
     pub obligations: u64,
     /// value of inputs the model does not mention
     pub default: f64,
+    /// Some(seed): inputs not listed are pseudo-random samples derived from the name and this seed (native sample runs)
+    pub sample_seed: Option<u64>,
+    /// relative tolerance of the native evaluation (0 = the default 1e-7)
+    pub tol: f64,
+    /// the inputs actually handed out (for reporting)
+    pub used: Vec<(String, f64)>,
+}
+pub fn sample_value(name: &str, seed: u64) -> f64 {
+    let mut h: u64 = seed ^ 0x9E3779B97F4A7C15;
+    for b in name.bytes() { h = (h ^ b as u64).wrapping_mul(0x100000001B3); h ^= h >> 29; }
+    h = h.wrapping_mul(0xD6E8FEB86659FD93); h ^= h >> 32;
+    let u = (h >> 11) as f64 / (1u64 << 53) as f64;
+    // a coarse grid (multiples of 1/8 in [0.25, 2]) so that ties between inputs occur
+    let mag = 0.25 + (u * 14.0).floor() / 8.0;
+    // occasionally a zero of either sign (IEEE detail that only the native runs can see)
+    if !name.starts_with("pos") && (h >> 3) % 16 == 0 { return if h & 1 == 1 { 0.0 } else { -0.0 }; }
+    if h & 1 == 1 || name.starts_with("pos") { mag } else { -mag }
 }
 thread_local! { pub static NATIVE: RefCell<NativeCtx> = RefCell::new(NativeCtx::default()); }
 
 const TOL: f64 = 1e-7;
-fn scale(a: f64, b: f64) -> f64 { TOL * 1.0f64.max(a.abs()).max(b.abs()) }
+fn scale(a: f64, b: f64) -> f64 { let t = NATIVE.with(|n| n.borrow().tol); (if t > 0.0 { t } else { TOL }) * 1.0f64.max(a.abs()).max(b.abs()) }
 /// could `c` hold, allowing for rounding?  (loose)      strict = holds with a margin
 fn eval(c: &Cond<f64>, strict: bool) -> bool {
     let s = |a: f64, b: f64| if strict { -scale(a, b) } else { scale(a, b) };
@@ -106,7 +123,7 @@ fn eval(c: &Cond<f64>, strict: bool) -> bool {
 }
 impl Dom for f64 {
     const SYMBOLIC: bool = false;
-    fn input(name: &str) -> f64 { NATIVE.with(|n| { let n = n.borrow(); n.inputs.get(name).copied().unwrap_or(if name.starts_with("pos") && n.default <= 0.0 { 1.0 } else { n.default }) }) }
+    fn input(name: &str) -> f64 { NATIVE.with(|n| { let mut n = n.borrow_mut(); let v = match (n.inputs.get(name).copied(), n.sample_seed) { (Some(v), _) => v, (None, Some(s)) => sample_value(name, s), (None, None) => if name.starts_with("pos") && n.default <= 0.0 { 1.0 } else { n.default } }; if n.sample_seed.is_some() && !n.used.iter().any(|(k, _)| k == name) { n.used.push((name.to_string(), v)); } v }) }
     fn assume(c: Cond<f64>) { if !eval(&c, false) { NATIVE.with(|n| n.borrow_mut().assumption_failed.push(format!("{:?}", c))); } }
     fn oblige(label: &str, c: Cond<f64>) {
         NATIVE.with(|n| n.borrow_mut().obligations += 1);
@@ -145,3 +162,23 @@ pub fn abs_le<T: Dom>(x: T, b: T) -> Cond<T> { Cond::And(vec![Cond::Le(x, b), Co
 /// x is the minimum of w: x <= all and x in w
 pub fn is_min<T: Dom>(x: T, w: &[T]) -> Cond<T> { Cond::And(vec![Cond::And(w.iter().map(|y| Cond::Le(x, *y)).collect()), Cond::Or(w.iter().map(|y| Cond::Eq(x, *y)).collect())]) }
 pub fn is_max<T: Dom>(x: T, w: &[T]) -> Cond<T> { Cond::And(vec![Cond::And(w.iter().map(|y| Cond::Le(*y, x)).collect()), Cond::Or(w.iter().map(|y| Cond::Eq(x, *y)).collect())]) }
+
+// ---- W64: the same native evaluation as f64, through a distinct scalar type (see w64.rs) -----------------------------------
+use crate::w64::W64;
+fn unwrap_cond(c: &Cond<W64>) -> Cond<f64> {
+    match c {
+        Cond::Lt(a, b) => Cond::Lt(a.0, b.0), Cond::Le(a, b) => Cond::Le(a.0, b.0), Cond::Eq(a, b) => Cond::Eq(a.0, b.0), Cond::Ne(a, b) => Cond::Ne(a.0, b.0),
+        Cond::Ident(a, b) => Cond::Ident(a.0, b.0), Cond::Lemma(a, b) => Cond::Lemma(a.0, b.0),
+        Cond::And(v) => Cond::And(v.iter().map(unwrap_cond).collect()), Cond::Or(v) => Cond::Or(v.iter().map(unwrap_cond).collect()),
+        Cond::Not(x) => Cond::Not(Box::new(unwrap_cond(x))), Cond::Bool(b) => Cond::Bool(*b),
+    }
+}
+impl Dom for W64 {
+    const SYMBOLIC: bool = false;
+    fn input(name: &str) -> W64 { W64(<f64 as Dom>::input(name)) }
+    fn assume(c: Cond<W64>) { <f64 as Dom>::assume(unwrap_cond(&c)) }
+    fn oblige(label: &str, c: Cond<W64>) { <f64 as Dom>::oblige(label, unwrap_cond(&c)) }
+    fn note(_: String) {}
+    fn r(n: i64, d: i64) -> W64 { W64(n as f64 / d as f64) }
+    fn term_id(self) -> u64 { self.0.to_bits() }
+}
